@@ -91,6 +91,9 @@ func (l *recLS) Save(ctx context.Context, data []byte) ([]byte, error) {
 
 type jop struct {
 	Op string      `json:"op"` // add remove lookup has store storecb reload
+	N  int         `json:"n,omitempty"`  // addmany/lookupmany: number of sibling entries below the prefix P
+	ML int         `json:"ml,omitempty"` // addmany: length of the metadata value of each entry
+	S  int         `json:"s,omitempty"`  // addmany: seed of the generated metadata values
 	B  string      `json:"b,omitempty"` // storecb: "accept" | "reject-all" | "reject-root" (byte budget of the StoreSizeFunc)
 	P  string      `json:"p,omitempty"`
 	E  string      `json:"e,omitempty"`
@@ -222,8 +225,46 @@ const (
 	clsEmptyRef  = "empty-reference"
 	clsNoOracle  = "outside-domain" // empty path, odd reference sizes: correspondence only
 	clsCbStore   = "store-with-callbacks" // the first successful Store goes through the StoreSizeFunc saver
+	clsBig       = "large-node" // a node that serialises to about one chunk or more (oracle only, see expandOps)
 	clsFailRoot  = "failed-store-at-root"  // a Store rejected at the root node (children saved), then more writes
 )
+
+// expandOps expands the descriptors "addmany" / "lookupmany" (prefix P, N sibling entries, metadata
+// value length ML, seed S) into N adds / N lookups + N prefix queries. The N entries are P + one
+// distinct byte + "f": N forks of ONE trie node, each carrying ML bytes of metadata, so that this
+// node serialises to N * (ML + ~90) bytes — the way to get manifest node payloads of one or several
+// chunks (boson.ChunkSize) through loadsave.Save/Load. Histories with such nodes are checked by the
+// oracle only (not re-run on the Coq model: a 300–550 KB byte-level payload is too large for
+// vm_compute within the quick budget).
+func manyPath(prefix []byte, i int) string { return string(prefix) + string([]byte{byte(0x21 + i)}) + "f" }
+func manyMeta(ml, seed, i int) [][2]string {
+	v := make([]byte, ml)
+	for j := range v {
+		v[j] = byte('a' + (seed+7*i+j+j/13)%26)
+	}
+	return [][2]string{{"k", string(v)}}
+}
+func expandOps(ops []jop) []jop {
+	var out []jop
+	for _, o := range ops {
+		switch o.Op {
+		case "addmany":
+			for i := 0; i < o.N; i++ {
+				out = append(out, opAdd(manyPath(unhex(o.P), i), refN(byte(1+(o.S+i)%9)), manyMeta(o.ML, o.S, i)))
+			}
+		case "lookupmany":
+			for i := 0; i < o.N; i++ {
+				out = append(out, opP("lookup", manyPath(unhex(o.P), i)))
+				if i%8 == 0 {
+					out = append(out, opP("has", manyPath(unhex(o.P), i)[:len(unhex(o.P))+1]))
+				}
+			}
+		default:
+			out = append(out, o)
+		}
+	}
+	return out
+}
 
 var errBudget = errors.New("size budget exceeded")
 
@@ -340,7 +381,7 @@ func runHistory(run *hx.Run, jc jcase) {
 		return 3
 	}
 
-	for i, o := range jc.Ops {
+	for i, o := range expandOps(jc.Ops) {
 		p := unhex(o.P)
 		var obs, cop string
 		stop := false
@@ -543,6 +584,10 @@ func runHistory(run *hx.Run, jc jcase) {
 	}
 	term := hx.CoqApp("Case", hx.CoqBool(jc.Enc), keyID, hx.CoqList(pe, "list N"),
 		hx.CoqList(tbl, "N * nat"), hx.CoqList(coqOps, "iop * icobs"))
+	if jc.Class == clsBig {
+		term = "" // oracle only
+		run.HistN("large-node.saved-bytes", func() int { n := 0; for _, d := range ls.order { n += len(d) }; return n }())
+	}
 	keyb := fmt.Sprintf("%v|%s|%v", jc.Enc, jc.Key, jc.Ops)
 	run.AddCase(term, jc, keyb, nontrivial && len(coqOps) >= 4)
 	run.Hist("class." + jc.Class)
@@ -583,6 +628,8 @@ func corpus() []jcase {
 		{Class: clsMutate, Ops: []jop{opAdd("a", refN(1), nil), opAdd("b", refN(2), nil), {Op: "store"}, opP("remove", "a"), opP("lookup", "a"), {Op: "store"}, {Op: "reload"}, opP("lookup", "a"), opP("lookup", "b")}},
 		// store; lookup; add; store -> the add is not in the stored manifest
 		{Class: clsMutate, Ops: []jop{opAdd("a", refN(1), nil), {Op: "store"}, opP("lookup", "a"), opAdd("b", refN(2), nil), opP("lookup", "b"), {Op: "store"}, {Op: "reload"}, opP("lookup", "b"), opP("lookup", "a")}},
+		// the same seen through HasPrefix
+		{Class: clsMutate, Ops: []jop{opAdd("a", refN(1), nil), {Op: "store"}, opP("lookup", "a"), opAdd("b", refN(2), nil), {Op: "store"}, {Op: "reload"}, opP("has", "b")}},
 		// store; overwrite; lookup below; store fails
 		{Class: clsMutate, Ops: []jop{opAdd("a", refN(1), nil), opAdd("ab", refN(3), nil), {Op: "store"}, opAdd("a", refN(2), nil), opP("lookup", "a"), opP("lookup", "ab"), {Op: "store"}}},
 		// store; overwrite; add below -> assignment to nil map
@@ -610,6 +657,15 @@ func corpus() []jcase {
 		// the first successful Store goes through accepting callbacks; rejected at the root twice before
 		{Class: clsFailRoot, Enc: true, Key: k, Ops: []jop{opAdd("x/1", refN(1), md), opAdd("y", refN(2), nil), {Op: "storecb", B: "reject-root"}, opAdd("z", refN(3), nil),
 			{Op: "storecb", B: "reject-root"}, opP("remove", "y"), {Op: "storecb", B: "accept"}, {Op: "reload"}, opP("lookup", "x/1"), opP("lookup", "y"), opP("lookup", "z")}},
+		// seeded/C10-3: node payloads around the chunk size (262144 bytes): the root with 51 / 52 / 63 /
+		// 102 / 104 sibling entries of 5000 bytes of metadata each = just under one chunk, just above,
+		// between one and two, just under two, above two chunks; and the same for an inner node
+		{Class: clsBig, Ops: []jop{{Op: "addmany", N: 51, ML: 5000, S: 1}, opAdd("zz/a", refN(1), md), {Op: "store"}, {Op: "reload"}, {Op: "lookupmany", N: 51}, opP("lookup", "zz/a"), opP("lookup", "zz")}},
+		{Class: clsBig, Ops: []jop{{Op: "addmany", N: 52, ML: 5000, S: 2}, {Op: "store"}, {Op: "reload"}, {Op: "lookupmany", N: 52}}},
+		{Class: clsBig, Ops: []jop{{Op: "addmany", N: 63, ML: 5000, S: 3}, opAdd("zz/a", refN(1), md), opP("remove", "zz/a"), {Op: "store"}, opP("lookup", "!f"), {Op: "reload"}, {Op: "lookupmany", N: 63}, opP("lookup", "zz/a")}},
+		{Class: clsBig, Enc: true, Key: k, Ops: []jop{{Op: "addmany", N: 102, ML: 5000, S: 4}, {Op: "store"}, {Op: "reload"}, {Op: "lookupmany", N: 102}}},
+		{Class: clsBig, Ops: []jop{{Op: "addmany", N: 104, ML: 5000, S: 5}, {Op: "store"}, {Op: "reload"}, {Op: "lookupmany", N: 104}}},
+		{Class: clsBig, Ops: []jop{opAdd("a", refN(1), nil), {Op: "addmany", P: hx.Hex([]byte("dir/")), N: 63, ML: 5000, S: 6}, opAdd("b", refN(2), md), {Op: "store"}, {Op: "reload"}, opP("lookup", "a"), {Op: "lookupmany", P: hx.Hex([]byte("dir/")), N: 63}, opP("lookup", "b"), opP("has", "dir")}},
 		// hasPrefix after removes
 		{Class: clsDisc, Ops: []jop{opAdd("ab", refN(1), nil), opAdd("ac", refN(2), nil), opP("remove", "ab"), opP("remove", "ac"), opP("has", "a"), opP("lookup", "ab"), {Op: "store"}, {Op: "reload"}, opP("has", "a"), opP("lookup", "ac")}},
 		{Class: clsDisc, Ops: []jop{opAdd(long40, refN(1), nil), opP("remove", long40), opP("has", "0"), opP("lookup", long40)}},
@@ -926,6 +982,52 @@ func (g *gen) historyFailRoot() jcase {
 	return jc
 }
 
+// historyBig: one trie node (the root or the node below a directory prefix) with many sibling
+// entries carrying large metadata, so that its payload is about 0.8 .. 2.3 chunks; plus a few small
+// entries, a leaf removal, Store, reload (sometimes twice), lookups of everything.
+func (g *gen) historyBig() jcase {
+	r := g.r
+	jc := jcase{Class: clsBig}
+	if r.Chance(1, 4) {
+		jc.Enc = true
+		jc.Key = hx.Hex(r.Bytes(32))
+	}
+	prefix := ""
+	if r.Chance(1, 2) {
+		prefix = []string{"d/", "dir/sub/", "0123456789012345678901234567/"}[r.Intn(3)]
+	}
+	ml := 3000 + r.Intn(4000)
+	// payload ~ n * (ml + 90): aim at 0.8 .. 2.3 chunks, biased to the boundaries
+	target := []int{210000, 255000, 262000, 263000, 270000, 330000, 400000, 515000, 523000, 526000, 600000}[r.Intn(11)]
+	n := target / (ml + 90)
+	if n > 200 {
+		n = 200
+	}
+	many := jop{Op: "addmany", P: hx.Hex([]byte(prefix)), N: n, ML: ml, S: r.Intn(1000)}
+	if r.Chance(1, 2) {
+		jc.Ops = append(jc.Ops, opAdd("~a", refN(1), mdPool[r.Intn(len(mdPool))]))
+	}
+	jc.Ops = append(jc.Ops, many)
+	if r.Chance(1, 2) {
+		jc.Ops = append(jc.Ops, opAdd("~b/c", refN(2), nil), opP("remove", "~b/c"))
+	}
+	if r.Chance(1, 3) { // remove one of the many (a leaf)
+		jc.Ops = append(jc.Ops, opP("remove", manyPath([]byte(prefix), r.Intn(n))))
+	}
+	jc.Ops = append(jc.Ops, jop{Op: "store"})
+	if r.Chance(1, 2) {
+		jc.Ops = append(jc.Ops, opP("lookup", manyPath([]byte(prefix), r.Intn(n))))
+	}
+	jc.Ops = append(jc.Ops, jop{Op: "reload"}, jop{Op: "lookupmany", P: many.P, N: n}, opP("lookup", "~a"), opP("lookup", "~b/c"))
+	if prefix != "" {
+		jc.Ops = append(jc.Ops, opP("has", prefix), opP("lookup", prefix))
+	}
+	if r.Chance(1, 3) {
+		jc.Ops = append(jc.Ops, jop{Op: "store"}, jop{Op: "reload"}, opP("lookup", manyPath([]byte(prefix), r.Intn(n))))
+	}
+	return jc
+}
+
 func main() {
 	run := hx.Start("C10", "Aurora.C10.Corr",
 		"histories of add/remove/lookup/hasPrefix/store/reload on manifest.NewMantarayManifest over loadsave(pipeline+joiner, in-memory chunk store); path pools with shared prefixes, nested directories, 28..62-byte segments, raw bytes; classes: disciplined (domain of the partial theorem, incl. Stores rejected by a size callback), store-with-callbacks, failed-store-at-root (flat path set, Store rejected at the root, more writes, Store), and one excluded feature per history; non-trivial = history with a reload and >= 4 operations; distinct by (key mode, operation list)")
@@ -942,7 +1044,7 @@ func main() {
 		runHistory(run, jc)
 	}
 	g := &gen{r: run.R}
-	n := run.N(200, 2500)
+	n := run.N(180, 2500)
 	for i := 0; i < n; i++ {
 		class := clsDisc
 		switch x := run.R.Intn(20); {
@@ -959,6 +1061,9 @@ func main() {
 		case x == 6 || x == 7 || x == 8:
 			runHistory(run, g.historyFailRoot())
 			continue
+		}
+		if run.R.Chance(1, 90) {
+			runHistory(run, g.historyBig())
 		}
 		runHistory(run, g.history(class))
 	}
